@@ -461,7 +461,9 @@ class SMCSampler(MCMCSampler):
         if beta is None:
             beta = state.get("beta", 0.0)
         iteration = state.get("iteration", 0)
-        self.history = state.get("history", SMCHistory())
+        # The run continues its own copy of the stored history, so that a
+        # checkpoint dictionary can be resumed from more than once
+        self.history = copy.deepcopy(state.get("history", SMCHistory()))
         self._restored_min_step = state.get("min_step")
         rng_state = state.get("rng_state")
         if rng_state is not None and hasattr(self.rng, "bit_generator"):
